@@ -116,6 +116,15 @@ def _call_target(call, mod, cls_name, helpers):
         h = helpers.get((mod, base, f.attr))
         if h is not None and h.kind == "static":
             return h
+    if isinstance(f, ast.Attribute) and _simple(f.value) and \
+            _is_private(f.attr):
+        # a private method called on another object (`new._helper(...)`):
+        # the name must belong to exactly one helper of this module
+        cands = [h for (m, c, n), h in helpers.items()
+                 if n == f.attr and m == mod and h.kind == "method"
+                 and getattr(h, "unique_name", False)]
+        if len(cands) == 1:
+            return cands[0]
     return None
 
 
@@ -154,7 +163,16 @@ def _only_direct_calls(trees, helpers):
                     elif k[0] == mod and not direct:
                         # the definition itself is a FunctionDef, not a Name
                         bad.add(k)
-    return {k: h for k, h in helpers.items() if k not in bad}
+    out = {k: h for k, h in helpers.items() if k not in bad}
+    # is the helper's name defined exactly once in the whole package?
+    defs = {}
+    for mod, tree in trees.items():
+        for n in ast.walk(tree):
+            if isinstance(n, (ast.FunctionDef, ast.AsyncFunctionDef)):
+                defs[n.name] = defs.get(n.name, 0) + 1
+    for k, h in out.items():
+        h.unique_name = defs.get(h.name, 0) == 1
+    return out
 
 
 class _Subst(ast.NodeTransformer):
@@ -313,6 +331,31 @@ class _Inliner:
             if not self.changed:
                 break
 
+    def _hoist(self, s):
+        call = _hoistable_call(self, s.value)
+        if call is None:
+            return None
+        h = self._target(call)
+        tmp = "%s__result" % h.name.strip("_")
+        k = 2
+        while tmp in self.caller_names:
+            tmp = "%s__result%d" % (h.name.strip("_"), k)
+            k += 1
+        self.caller_names.add(tmp)
+
+        class _R(ast.NodeTransformer):
+            def visit(self_, node):
+                if node is call:
+                    return ast.copy_location(
+                        ast.Name(id=tmp, ctx=ast.Load()), node)
+                return ast.NodeTransformer.generic_visit(self_, node)
+        pre = ast.copy_location(ast.Assign(
+            targets=[ast.Name(id=tmp, ctx=ast.Store())], value=call), s)
+        s.value = _R().visit(s.value)
+        ast.fix_missing_locations(pre)
+        ast.fix_missing_locations(s)
+        return [pre, s]
+
     def _target(self, call):
         if not isinstance(call, ast.Call):
             return None
@@ -390,6 +433,14 @@ class _Inliner:
                 self.failed.add((self.mod, h.cls.name if h.cls else None,
                                  h.name))
                 return [s]
+        # a statement-bodied helper called inside a larger expression of a
+        # simple statement: hoist the call into a temporary first
+        if isinstance(s, (ast.Return, ast.Assign, ast.AugAssign, ast.Expr)) \
+                and getattr(s, "value", None) is not None:
+            hoisted = self._hoist(s)
+            if hoisted is not None:
+                self.changed = True
+                return self.block(hoisted)
         # expression-level substitution of single-return helpers
         repl = _ExprInline(self)
         s2 = repl.visit(s)
@@ -397,6 +448,27 @@ class _Inliner:
             self.changed = True
             ast.fix_missing_locations(s2)
         return [s2]
+
+
+def _hoistable_call(inl, root):
+    """First helper call nested in `root` (not root itself) that is
+    evaluated unconditionally and whose helper is not a single return."""
+    blocked = (ast.IfExp, ast.BoolOp, ast.Lambda, ast.ListComp, ast.SetComp,
+               ast.DictComp, ast.GeneratorExp)
+
+    def walk(n, top):
+        if isinstance(n, blocked):
+            return None
+        if isinstance(n, ast.Call) and not top:
+            h = inl._target(n)
+            if h is not None and not _expr_like(h):
+                return n
+        for c in ast.iter_child_nodes(n):
+            r = walk(c, False)
+            if r is not None:
+                return r
+        return None
+    return walk(root, True)
 
 
 def _always_leaves(ifnode):
@@ -444,8 +516,68 @@ class _ExprInline(ast.NodeTransformer):
         return ast.copy_location(body[0].value, node)
 
 
+def inline_local_functions(tree):
+    """Nested `def f(params): return <expr>` used only by direct calls in
+    the enclosing function: substituted at the call sites. -> count"""
+    count = 0
+    for fn in [n for n in ast.walk(tree) if isinstance(n, ast.FunctionDef)]:
+        for inner in [b for b in fn.body if isinstance(b, ast.FunctionDef)]:
+            body = _body_wo_doc(inner)
+            a = inner.args
+            if (inner.decorator_list or len(body) != 1
+                    or not isinstance(body[0], ast.Return)
+                    or body[0].value is None or a.vararg or a.kwarg
+                    or a.kwonlyargs or a.posonlyargs or a.defaults
+                    or _has(inner, (ast.Yield, ast.YieldFrom, ast.Lambda,
+                                    ast.Await))):
+                continue
+            name = inner.name
+            params = [x.arg for x in a.args]
+            parents = {}
+            for n in ast.walk(fn):
+                for c in ast.iter_child_nodes(n):
+                    parents[id(c)] = n
+            refs = [n for n in ast.walk(fn) if isinstance(n, ast.Name)
+                    and n.id == name]
+            if not refs or any(
+                    id(n) in {id(x) for x in ast.walk(inner)} for n in refs):
+                continue
+            ok = True
+            for n in refs:
+                p = parents.get(id(n))
+                if not (isinstance(p, ast.Call) and p.func is n and
+                        len(p.args) == len(params) and not p.keywords and
+                        not any(isinstance(x, ast.Starred) for x in p.args)):
+                    ok = False
+            if not ok:
+                continue
+            # parameters must not be captured differently: plain substitution
+            expr = body[0].value
+            if _has(expr, ast.NamedExpr):
+                continue
+
+            class _R(ast.NodeTransformer):
+                def visit_Call(self, node):
+                    self.generic_visit(node)
+                    if isinstance(node.func, ast.Name) and \
+                            node.func.id == name:
+                        sub = _Subst(dict(zip(params, node.args)), {})
+                        return ast.copy_location(
+                            sub.visit(copy.deepcopy(expr)), node)
+                    return node
+            fn.body = [b for b in fn.body if b is not inner]
+            for i, st in enumerate(fn.body):
+                fn.body[i] = _R().visit(st)
+            ast.fix_missing_locations(fn)
+            count += 1
+    return count
+
+
 def inline_trees(trees):
     """trees: {module: ast.Module}. Mutates the trees. -> report dict."""
+    local = 0
+    for tree in trees.values():
+        local += inline_local_functions(tree)
     helpers = _only_direct_calls(trees, find_helpers(trees))
     if not helpers:
         return {"inlined": {}, "kept": []}
